@@ -57,6 +57,11 @@ def contents(rng):
     ex5 = [f for f in geo.example_files() if f.name == 'example5.txt']
     if ex5:
         pool['relative-data-file'] = geo.example_text(ex5[0])
+    # a content that states gradients and thicknesses, served just before one that leaves them at their defaults: the session process answers the
+    # second after the first, the command line answers each in a fresh process
+    pool['segments-stated'] = c8['seg-set']
+    pool['sparse'] = c8['sparse']
+    pool['seg-thick-default'] = c8['seg-thick-default']
     return pool
 
 
@@ -125,7 +130,7 @@ def evaluate(chk: core.Check, n_cases):
     combos = [(c, s, st) for c in pool for s in SHAPES for st in ('start', 'sub', 'root')]
     rng.shuffle(combos)
     # every shape at least once with a succeeding and a failing input
-    must = [(c, s, 'start') for s in SHAPES for c in ('ok0', 'badrange')] + [('relative-data-file', 'relative', 'start'), ('relative-data-file', 'absolute', 'sub'), ('badfile', 'default', 'start'), ('badfile', 'absolute', 'sub'), ('badcalc', 'relative', 'start'), ('mpf-b', 'relative', 'start'), ('mpf-a', 'absolute', 'sub'), ('addon', 'relative', 'start')]
+    must = [(c, s, 'start') for s in SHAPES for c in ('ok0', 'badrange')] + [('relative-data-file', 'relative', 'start'), ('relative-data-file', 'absolute', 'sub'), ('badfile', 'default', 'start'), ('badfile', 'absolute', 'sub'), ('badcalc', 'relative', 'start'), ('mpf-b', 'relative', 'start'), ('mpf-a', 'absolute', 'sub'), ('addon', 'relative', 'start'), ('sparse', 'relative', 'start'), ('seg-thick-default', 'default', 'start')]
     for (c, s, st) in (must + combos)[:n_cases]:
         jobs.append((str(Path(chk.scratch) / f'cli{k}'), c, pool[c], s, st))
         k += 1
